@@ -118,6 +118,10 @@ class Env:
                 obj = fs.get(fname)
                 if obj is fakefs.UNREADABLE:
                     raise EOFError("Ran out of input")
+                if obj is fakefs.TRUNCATED:
+                    import pickle as _pk
+
+                    raise _pk.UnpicklingError("pickle data was truncated")
                 return fakefs.snap(obj)
 
             self._set(cp, "write_to_disk", write_to_disk)
@@ -181,7 +185,7 @@ class Env:
         """The object stored in a crop file (what read_from_disk would return)."""
         if self.mode == "sym":
             obj = self.fs.get(p)
-            if obj is fakefs.UNREADABLE:
+            if isinstance(obj, fakefs._Unreadable):
                 raise EOFError("unreadable")
             return obj
         import pickle
@@ -198,15 +202,16 @@ class Env:
             with open(p, "wb") as f:
                 pickle.dump(obj, f)
 
-    def make_unreadable(self, p):
-        """Replace a crop file by one that cannot be unpickled (truncated)."""
+    def make_unreadable(self, p, kind="truncated"):
+        """Replace a crop file by one that cannot be unpickled: kind 'empty' (zero bytes: EOFError) or 'truncated'
+        (cut in half: UnpicklingError)."""
         if self.mode == "sym":
-            self.fs.put(p, fakefs.UNREADABLE)
+            self.fs.put(p, fakefs.UNREADABLE if kind == "empty" else fakefs.TRUNCATED)
         else:
             with open(p, "rb") as f:
                 data = f.read()
             with open(p, "wb") as f:
-                f.write(data[: max(1, len(data) // 2)])
+                f.write(b"" if kind == "empty" else data[: max(1, len(data) // 2)])
 
     def remove(self, p):
         if self.mode == "sym":
